@@ -91,7 +91,9 @@ def alphabet(S):
 
 
 REDUCED = [0, 1, 4, 5, 6, 7, 9, 11, 12, 13, 14, 3]
-SMALL = [0, 1, 4, 5, 9, 13, 7, 8]
+REDUCED9 = [0, 1, 4, 5, 6, 7, 9, 13, 14]
+WIDE = [0, 1, 2, 3, 4, 5, 6, 7, 8, 9, 11, 12, 13, 14, 15, 16, 18, 21]  # 18 ops
+LIMIT6 = [0, 1, 7, 8, 13, 4]  # the limit boundary with interleaved logins / logoffs / time-outs
 PREAMBLES = {"none": [], "two": [0, 1], "three": [0, 1, 0]}
 
 
@@ -659,34 +661,34 @@ class Check:
 
     def cases(self, tier, seed):
         specs = []
-        n = 22
-        for (S, pre, lim, T) in self.FAMILIES:
-            fam = dict(subject=S, pre_users=pre, limit=lim, timeout=T)
-            if tier == "quick":
-                for pname in PREAMBLES:
-                    for first in range(n):
-                        specs.append({"name": f"exh3-{S}-{pname}-{first}", "kind": "exh", "depth": 3, "fixed": [first], "alpha": list(range(n)),
-                                      "preamble": pname, **fam})
-                for first in REDUCED:
-                    specs.append({"name": f"exh4r-{S}-two-{first}", "kind": "exh", "depth": 4, "fixed": [first], "alpha": REDUCED, "preamble": "two", **fam})
-                for first in SMALL:
-                    specs.append({"name": f"exh5s-{S}-none-{first}", "kind": "exh", "depth": 5, "fixed": [first], "alpha": SMALL, "preamble": "none", **fam})
-            else:
-                for pname in ("none", "two"):
-                    for first in range(n):
-                        for second in range(n):
-                            specs.append({"name": f"exh4-{S}-{pname}-{first}-{second}", "kind": "exh", "depth": 4, "fixed": [first, second],
-                                          "alpha": list(range(n)), "preamble": pname, **fam})
-                for first in REDUCED:
-                    for second in REDUCED:
-                        specs.append({"name": f"exh5r-{S}-two-{first}-{second}", "kind": "exh", "depth": 5, "fixed": [first, second],
-                                      "alpha": REDUCED, "preamble": "two", **fam})
-                for first in SMALL:
-                    for second in SMALL:
-                        specs.append({"name": f"exh6s-{S}-none-{first}-{second}", "kind": "exh", "depth": 6, "fixed": [first, second],
-                                      "alpha": SMALL, "preamble": "none", **fam})
-        for s in range(32 if tier == "quick" else 128):
-            specs.append({"name": f"rand-{seed * 1000 + s}", "kind": "rand", "seed": seed * 1000 + s, "n": 60 if tier == "quick" else 200, "len": 40})
+        FULL = list(range(22))
+        fams = {S: dict(subject=S, pre_users=pre, limit=lim, timeout=T) for (S, pre, lim, T) in self.FAMILIES}
+
+        def exh(S, pname, alpha, aname, depth, nfixed):
+            for fixed in itertools.product(alpha, repeat=nfixed):
+                specs.append({"name": f"exh{depth}{aname}-{S}-{pname}-" + "-".join(map(str, fixed)), "kind": "exh", "depth": depth,
+                              "fixed": list(fixed), "alpha": alpha, "preamble": pname, "size": len(alpha) ** (depth - nfixed), **fams[S]})
+
+        if tier == "quick":
+            for S in fams:
+                exh(S, "none", FULL, "", 3, 1)
+                exh(S, "two", FULL, "", 3, 1)
+                exh(S, "three", FULL, "", 2, 0)
+            exh("admin", "two", REDUCED, "r", 4, 1)
+            exh("u1", "none", LIMIT6, "l", 5, 1)
+            nrand, per = 32, 40
+        else:
+            exh("admin", "none", WIDE, "w", 4, 2)
+            exh("admin", "two", FULL, "", 3, 1)
+            exh("admin", "two", REDUCED9, "r", 5, 2)
+            exh("u1", "none", FULL, "", 3, 1)
+            exh("u1", "two", WIDE, "w", 4, 2)
+            exh("u1", "three", FULL, "", 3, 1)
+            exh("u1", "none", LIMIT6, "l", 6, 2)
+            nrand, per = 128, 200
+        for s in range(nrand):
+            specs.append({"name": f"rand-{seed * 1000 + s}", "kind": "rand", "seed": seed * 1000 + s, "n": per, "len": 40, "size": per * 3})
+        specs.sort(key=lambda c: -c["size"])  # longest first: no long tail on the worker pool
         return specs
 
     def run_case(self, spec):
